@@ -242,3 +242,54 @@ TARGETS = {
     'T10c': {'file': 'volume.py', 'build': build_T10c},
     'T10d': {'file': 'volume.py', 'build': build_T10d},
 }
+
+
+def build_T9d(tree):
+    """`Volume.pad`: the decision whether padding is done channel by channel"""
+    fn = find_func(tree, 'Volume.pad')
+    body = strip_doc(fn.body)
+    i1 = next((k for k, st in enumerate(body) if isinstance(st, ast.If) and isinstance(st.test, ast.Compare)
+               and isinstance(st.test.ops[0], ast.In) and ast.unparse(st.test.left) == 'mode'), None)
+    if i1 is None or i1 + 1 >= len(body) or not isinstance(body[i1 + 1], ast.If):
+        raise Unsupported('`if mode in (...)` followed by the channel-count test not found in Volume.pad')
+    # what precedes: mode normalisation to the enum
+    pre = ''.join(ast.unparse(s) for s in body[:i1]).replace(' ', '').replace('\n', '')
+    if pre != 'ifisinstance(mode,str):mode=mode.upper()mode=PadModes(mode)':
+        raise Unsupported(f'mode normalisation of Volume.pad changed: {pre}')
+    blk = [ast.parse(ast.unparse(s)).body[0] for s in body[i1:i1 + 2]]
+
+    class R(ast.NodeTransformer):
+        def visit_Compare(self, node):
+            if len(node.ops) == 1 and isinstance(node.ops[0], ast.In) and isinstance(node.comparators[0], ast.Tuple):
+                elts = node.comparators[0].elts
+                return ast.BoolOp(op=ast.Or(), values=[ast.Compare(left=node.left, ops=[ast.Eq()], comparators=[self.visit(e)])
+                                                       for e in elts])
+            if ''.join(ast.unparse(node).split()) == 'self.channel_shape==(1,)':
+                return ast.Name(id='channel_shape_is_one', ctx=ast.Load())
+            return self.generic_visit(node)
+
+        def visit_Attribute(self, node):
+            txt = ast.unparse(node)
+            if txt.startswith('PadModes.'):
+                return ast.Constant(value=txt.split('.', 1)[1])
+            if txt == 'self.number_of_channel_dimensions':
+                return ast.Name(id='n_channel_dims', ctx=ast.Load())
+            return node
+
+        def visit_Assign(self, node):
+            if ast.unparse(node.targets[0]) == 'used_mode':
+                return ast.Pass()
+            return self.generic_visit(node)
+    blk = [R().visit(s) for s in blk]
+    blk.append(ast.parse('return per_channel').body[0])
+    for s in blk:
+        ast.fix_missing_locations(s)
+    # the enum values are their names (so the upper-cased string IS the member)
+    text = translate_block(blk, 'padPerChannel', [('mode', 'str'), ('per_channel', 'bool'), ('n_channel_dims', 'int'),
+                                                  ('channel_shape_is_one', 'bool')], {},
+                           doc='`Volume.pad`: effective `per_channel` from the mode (enum member name), the argument, the number '
+                               'of channel dimensions and `channel_shape == (1,)`')
+    return text, span_sha(body[i1:i1 + 2])
+
+
+TARGETS['T9d'] = {'file': 'volume.py', 'build': build_T9d}
